@@ -189,7 +189,8 @@ func sharedPaths(o, c reflect.Value, path string, out map[string]bool) {
 		if o.IsNil() || c.IsNil() {
 			return
 		}
-		if o.Pointer() == c.Pointer() {
+		if o.Pointer() == c.Pointer() && o.Type().Elem().Size() > 0 {
+			// (all pointers to zero-size values, e.g. &message.Ready{}, are equal in Go: they refer to no memory)
 			out[path] = true
 			return
 		}
@@ -229,7 +230,7 @@ func sharedPaths(o, c reflect.Value, path string, out map[string]bool) {
 		}
 		oe, ce := o.Elem(), c.Elem()
 		if oe.Kind() == reflect.Ptr && ce.Kind() == reflect.Ptr {
-			if oe.Pointer() == ce.Pointer() {
+			if oe.Pointer() == ce.Pointer() && oe.Type().Elem().Size() > 0 {
 				out[path] = true
 				return
 			}
@@ -254,7 +255,9 @@ func allRefs(v reflect.Value, out map[uintptr]bool) {
 	switch v.Kind() {
 	case reflect.Ptr:
 		if !v.IsNil() {
-			out[v.Pointer()] = true
+			if v.Type().Elem().Size() > 0 {
+				out[v.Pointer()] = true
+			}
 			allRefs(v.Elem(), out)
 		}
 	case reflect.Slice:
